@@ -99,4 +99,4 @@ def run(out, tier, seed):
     out.conform(__name__, TRACE, jobs, nontrivial=nontrivial, chunk=600)
     # graph views of one dataset under the Graph-level API (a -= on one view must not reach into the other graphs): TraceGraphAlgebra.tla
     from . import g04
-    g04.add_jobs(out, tier, seed, stores=["shared", "shared_default", "mixed"], label="graph-api-views")
+    g04.add_jobs(out, tier, seed, stores=["shared", "shared_default", "mixed", "mixed_hidden"], label="graph-api-views")
